@@ -107,7 +107,8 @@ func (propC17) Gen(seed uint64, tier string, idx int) *Plan {
 			if tier == "quick" && sz > limit+3<<20 {
 				continue
 			}
-			op := ClientOp{ID: i + 1, At: time.Duration(i) * 300 * time.Millisecond, Method: "POST", Deadline: 30 * time.Second}
+			// the proxy routes take any method, and any method can carry a body
+			op := ClientOp{ID: i + 1, At: time.Duration(i) * 300 * time.Millisecond, Method: pickS(r, []string{"POST", "POST", "POST", "PUT", "PATCH", "DELETE", "GET"}), Deadline: 30 * time.Second}
 			op.Path = pickS(r, []string{"/olla/proxy/v1/chat/completions", "/olla/" + epType + "/v1/chat/completions"})
 			kind := "json"
 			if r.Chance(300) {
